@@ -2,7 +2,7 @@
 From Coq Require Import List ZArith QArith Qround Bool.
 From PV Require Import lib.Sx lib.Str lib.Result.
 From PV Require Import model.Base spec.SpecBase model.TimeWrite spec.SpecTimeW extract.OrCommon.
-From PV Require model.Langs spec.SpecTimeSamiDoc.
+From PV Require model.Langs spec.SpecTimeSamiDoc model.DfxpWriteDoc.
 Import ListNotations.
 Open Scope Z_scope.
 
@@ -134,6 +134,23 @@ Definition req_sami_doc (arg : sx) : sx :=
   | None => bad
   end.
 
+(* 207 (wave 7): [language, captions (start, end, text lines)] -> the text of the DFXP document the string-level writer
+   model prints (model/DfxpWriteDoc.v), compared character by character with DFXPWriter().write *)
+Definition sx_wcap (x : sx) : option (Z * Z * list str) :=
+  match x with
+  | SL [SI a; SI b; ls] => match sx_listof sx_str ls with Some ls => Some (a, b, ls) | None => None end
+  | _ => None
+  end.
+Definition req_dfxp_doc_text (arg : sx) : sx :=
+  match arg with
+  | SL [SS lang; cs] =>
+      match sx_listof sx_wcap cs with
+      | Some cs => SS (model.DfxpWriteDoc.dfxp_write_doc lang cs)
+      | None => bad
+      end
+  | _ => bad
+  end.
+
 Definition dispatch (code : Z) (arg : sx) : option sx :=
   match code with
   | 200 => Some (req_model arg)
@@ -143,5 +160,6 @@ Definition dispatch (code : Z) (arg : sx) : option sx :=
   | 204 => Some (req_classify arg)
   | 205 => Some (req_groups arg)
   | 206 => Some (req_sami_doc arg)
+  | 207 => Some (req_dfxp_doc_text arg)
   | _ => None
   end.
